@@ -10,7 +10,7 @@ import json, os, re, shutil, sys, concurrent.futures, threading
 import lib
 
 CANARY = 1515870810
-JOBS = int(os.environ.get('VERIF_JOBS', '8'))
+JOBS = int(os.environ.get('VERIF_JOBS', '0'))      # parallel single-worker TLC processes; 0: 8 (quick) / 12 (thorough)
 
 def S(b):
     return bytes(b).decode('latin-1')
@@ -90,7 +90,7 @@ def gen_and_replay(rep, exe, w, cfg, part, nparts, stats, samples, lock):
             res['mism'].append(m)
     return res
 
-def validate(rep, path, label):
+def validate(rep, path, label, par=2):
     """TVMatch over a file of recorded calls (<= 60000 lines per TLC run). Returns (judged, mismatches)."""
     lines = open(path).read().splitlines()
     if not lines:
@@ -106,7 +106,7 @@ def validate(rep, path, label):
         os.unlink(p)
         return i, r
     judged = mism = 0
-    with concurrent.futures.ThreadPoolExecutor(max_workers=max(1, JOBS // 4)) as ex:
+    with concurrent.futures.ThreadPoolExecutor(max_workers=par) as ex:
         for i, r in ex.map(one, range(len(chunks))):
             rep.add_tlc('TVMatch:%s:%d' % (label, i), r, 'validation of recorded calls of the real matcher against ScpiMatch')
             if r.distinct != 2 * len(chunks[i]) and not r.errors:
@@ -145,6 +145,7 @@ def run(pid, tier):
     rep._nt = set()
     rep._kinds = {}
     quick = tier == 'quick'
+    jobs_n = JOBS or (8 if quick else 12)
     rep.cov['rule'] = ('cases = (pattern, header) pairs. Patterns: every pattern over the lexicon {ABCd, ABcd, EFgh, XY} x {mandatory, optional} x {plain, #} '
                        'x query flag with 1..%d keywords (at least one mandatory) that satisfies the side condition WellFormedPattern, plus the frozen list of 77 shipped '
                        'patterns (tests, examples). Headers per pattern, enumerated by TLC (MatchCases!CasesOf): every accepted spelling (each subset of the optional keywords, '
@@ -168,7 +169,7 @@ def run(pid, tier):
         cfg, p, n = j
         return j, lib.tlc('MCMatch', 'MCMatch_%s.cfg' % cfg, workers=1, env={'PART': p, 'NPARTS': n}, timeout=850, xmx='3g')
     wf = ill = illw = mhdr = 0
-    with concurrent.futures.ThreadPoolExecutor(max_workers=JOBS) as ex:
+    with concurrent.futures.ThreadPoolExecutor(max_workers=jobs_n) as ex:
         for (cfg, p, n), r in ex.map(mcjob, jobs):
             rep.add_tlc('MCMatch_%s:%d/%d' % (cfg, p, n), r, 'model checking: MatchAlgo = Accepts/Numbers and unique selection for every well-formed pattern, ParsePattern/PatternText round trip, common patterns')
             if r.violations:
@@ -194,7 +195,7 @@ def run(pid, tier):
     gjobs = [(cfg, p, n) for cfg, n in gen for p in range(n)]
     calls = 0
     kinds = {}
-    with concurrent.futures.ThreadPoolExecutor(max_workers=JOBS) as ex:
+    with concurrent.futures.ThreadPoolExecutor(max_workers=jobs_n) as ex:
         futs = [(j, ex.submit(gen_and_replay, rep, exe, w, j[0], j[1], j[2], stats, samples, lock)) for j in gjobs]
         for (cfg, p, n), fu in futs:
             res = fu.result()
@@ -232,7 +233,7 @@ def run(pid, tier):
     if d['rc'] != 0:
         rep.violation('driver-failure', dict(mode='record', rc=d['rc'], stderr=d['stderr'].decode(errors='replace')[-3000:]))
     else:
-        judged, mism = validate(rep, w + '/rand.ndjson', 'random')
+        judged, mism = validate(rep, w + '/rand.ndjson', 'random', par=max(1, jobs_n // 4))
         rep.cov['random'] = dict(recorded=n, judged=judged, accepted_distinct=len(rep._nt), mismatches=mism, mismatches_by_kind=rep._kinds)
         rep.cov['evaluations'] += n
         rep.cov['traces_validated_against_impl'] += judged
